@@ -82,7 +82,7 @@ def rand_expr(rng, depth, vars_=VARS):
             return ["c", rng.randint(-3, 5)]
         if q < 0.85:
             return ["cf", repr(rng.choice([0.5, 1.5, 2.25]))]
-        return ["cz", repr(complex(0, rng.choice([1, 2])))]
+        return ["cz", repr(rng.choice([1j, 2j, complex(2, 0), complex(1, 1)]))]
     if r < 0.45:
         return ["+", [rand_expr(rng, depth - 1, vars_) for _ in range(rng.randint(2, 3))]]
     if r < 0.58:
